@@ -30,16 +30,56 @@ pub fn make_dv(d: &BTreeSet<u32>, v: Variant) -> DeletionVector {
 /// cannot hang the harness.
 pub fn run_mapper(dv: DeletionVector, offs: Vec<u32>) -> Result<Vec<u32>, bool> {
     let (tx, rx) = mpsc::channel();
+    let mutant = crate::sanity() == "mapper-returns-deleted";
     std::thread::spawn(move || {
         let r = catch(|| {
-            let mut m = OffsetMapper::new(Arc::new(dv));
-            offs.iter().map(|o| m.map_offset(*o)).collect::<Vec<u32>>()
+            if mutant {
+                let mut m = MutMapper { dv: dv.iter().collect(), left: 0, last_diff: 0 };
+                offs.iter().map(|o| m.map_offset(*o)).collect::<Vec<u32>>()
+            } else {
+                let mut m = OffsetMapper::new(Arc::new(dv));
+                offs.iter().map(|o| m.map_offset(*o)).collect::<Vec<u32>>()
+            }
         });
         let _ = tx.send(r);
     });
     match rx.recv_timeout(Duration::from_secs(10)) {
         Ok(r) => r,
         Err(_) => Err(false),
+    }
+}
+
+/// SANITY MUTANT (only with `--sanity mapper-returns-deleted`): a line-by-line copy of
+/// OffsetMapper::map_offset with ONE planted change — the `if !self.dv.contains(mid)` guard of the
+/// `Equal` arm is dropped, so a deleted position can be returned.
+struct MutMapper {
+    dv: BTreeSet<u32>,
+    left: u32,
+    last_diff: u32,
+}
+impl MutMapper {
+    fn map_offset(&mut self, offset: u32) -> u32 {
+        let mut mid = offset + self.last_diff;
+        let mut right = offset + self.dv.len() as u32;
+        loop {
+            let end = mid + 1;
+            let deleted_in_range = self.dv.range(..end).count() as u32;
+            match mid.cmp(&(offset + deleted_in_range)) {
+                std::cmp::Ordering::Equal => {
+                    self.last_diff = mid - offset;
+                    return mid;
+                }
+                std::cmp::Ordering::Less => {
+                    assert_ne!(self.left, mid + 1);
+                    self.left = mid + 1;
+                    mid = self.left + (right - self.left) / 2;
+                }
+                std::cmp::Ordering::Greater => {
+                    right = mid;
+                    mid = self.left + (right - self.left) / 2;
+                }
+            }
+        }
     }
 }
 
@@ -106,9 +146,9 @@ fn gen_dv(rng: &mut Rng, size_class: u64) -> BTreeSet<u32> {
 
 pub fn run(args: &Args, sink: &mut Sink, rng: &mut Rng) {
     let mut s = Stream::new("map_offsets", REQ, "chk_map_offsets", "list N * list N", "outcome (list N)");
-    s.shard = 150;
+    s.shard = 400;
     let mut sbig = Stream::new("map_offsets_big", REQ, "chk_map_offsets", "list N * list N", "outcome (list N)");
-    sbig.shard = 4;
+    sbig.shard = 8;
     let mut q = Stream::new("dv_queries", REQ, "chk_dv_queries", "list N * list N", "N * list bool");
     q.shard = 200;
 
